@@ -92,17 +92,18 @@ def _brute_nn(src, dst, kind, remap_to):
     return ang
 
 
-def make_nn(oid, gname, kind, remap_to, coord, lead, history=None, tiers=("quick", "thorough")):
+def make_nn(oid, gname, kind, remap_to, coord, lead, history=None, tiers=("quick", "thorough"), same_grid=False):
+    """same_grid: the destination is the source Grid object itself (data moved between element kinds of one grid)"""
     rows, n_node = GRIDS[gname]
     sizes = _sizes(rows, n_node)
     L = sizes[kind]
-    dsz = _sizes(*DEST)
+    dsz = sizes if same_grid else _sizes(*DEST)
     n_dest = dsz[{"nodes": "n_node", "face centers": "n_face", "edge centers": "n_edge"}[remap_to]]
     shape = tuple(lead) + (L,)
     nlead = int(np.prod(lead)) if lead else 1
 
     def setup(ctx):
-        for k, v in (("grid", gname), ("kind", kind), ("remap_to", remap_to), ("coord", coord), ("lead", list(lead)), ("history", history)):
+        for k, v in (("grid", gname), ("kind", kind), ("remap_to", remap_to), ("coord", coord), ("lead", list(lead)), ("history", history), ("same_grid", same_grid)):
             ctx.const(k, v)
         vals = [z3.Real(f"v_{i}") for i in range(nlead * L)]
         for i in range(len(vals)):
@@ -117,6 +118,8 @@ def make_nn(oid, gname, kind, remap_to, coord, lead, history=None, tiers=("quick
         undo = _install(w)
         try:
             src, dst = _grids(gname)
+            if same_grid:
+                dst = src
             U = w.get("uxarray.core.dataarray", "UxDataArray")
             if history:
                 hk = history
@@ -125,7 +128,14 @@ def make_nn(oid, gname, kind, remap_to, coord, lead, history=None, tiers=("quick
             dims = [f"d{i}" for i in range(len(lead))] + [kind]
             da = U(symnp.SArr.new([mk(v) for v in vals], shape, None, symnp.float64), dims=dims, uxgrid=src, name="t")
             out = da.remap.nearest_neighbor(dst, remap_to=remap_to, coord_type=coord)
-            tree = src._ball_tree._current_tree()
+            try:
+                tree = src._ball_tree._current_tree()
+                searched = len(tree.queries) > 0
+            except Exception:      # noqa: BLE001
+                tree, searched = None, False
+            ctx.prove("a nearest-neighbour search over the source elements is performed", searched)
+            if not searched:
+                return
             ok, why = c11._tree_matches(tree, src, KINDS[kind], coord, "haversine" if coord == "spherical" else "minkowski")
             ctx.prove("the source tree is built from the elements the data live on, in the requested coordinate type", ok, note=why,
                       regions={"remap_kind_inferred_from_length": _coincide(sizes, kind)})
@@ -159,6 +169,8 @@ def make_nn(oid, gname, kind, remap_to, coord, lead, history=None, tiers=("quick
     def replay(v):
         import uxarray as ux
         src, dst = _real_grids(gname)
+        if same_grid:
+            dst = src
         if history:
             ux.UxDataArray(np.arange(sizes[history], dtype=float), dims=[history], uxgrid=src, name="h").remap.nearest_neighbor(dst, remap_to=remap_to, coord_type=coord)
         data = np.array(v["vals"], dtype=float).reshape(shape)
@@ -292,6 +304,8 @@ def obligations(tier):
         obs.append(make_nn(f"C12.nn.mixed.{kind[2:]}.{remap_to.split()[0]}.{coord[:3]}", "mixed", kind, remap_to, coord, lead))
     obs += [make_nn("C12.nn.tetra.node", "tetra", "n_node", "nodes", "spherical", ()), make_nn("C12.nn.tetra.face", "tetra", "n_face", "nodes", "spherical", ()),
             make_nn("C12.nn.tetra.edge", "tetra", "n_edge", "face centers", "cartesian", (2,))]
+    obs += [make_nn("C12.nn.tetra.same_grid.node_to_face", "tetra", "n_node", "face centers", "spherical", (2,), same_grid=True),
+            make_nn("C12.nn.mixed.same_grid.face_to_node", "mixed", "n_face", "nodes", "cartesian", (), same_grid=True)]
     obs += [make_nn("C12.nn.history.face_then_node", "mixed", "n_node", "nodes", "spherical", (), history="n_face"),
             make_nn("C12.nn.history.node_then_edge", "mixed", "n_edge", "nodes", "spherical", (), history="n_node"),
             make_nn("C12.nn.history.edge_then_face", "mixed", "n_face", "face centers", "cartesian", (2,), history="n_edge")]
